@@ -67,3 +67,277 @@ class EdgeContribution(Contract):
             return self.forbid(ctx, 'C17.edge_contribution.returns_a_number', tags=T, note='kind %s' % res.kind)
         for comp, f in spec.state_unchanged(c.g, c.pre).items():
             ctx.oblige('C17.edge_contribution.modifies_nothing.%s' % comp, f, tags=T)
+
+
+# ---- measures that count snapshot ids (C17): node_contribution, pair_density, node_presence, coverage ---------------------------------
+#
+# for t in self.snapshots: <counter> += 1 under a condition c(t)       (the snapshot ids are visited once each, in unspecified order)
+#   ghost visited set Vis;  invariant  counter = #c(Vis)  where  #c(S) := |{t in S : c(t)}|  is an uninterpreted function of the set with
+#   its DEFINING equations  #c({}) = 0,  #c(S + {x}) = #c(S) + [c(x)]  for x not in S  (the instance for the element being visited is
+#   supplied at each step).  What is proved is that the code's condition is the contract's c; the value is then #c(dom Cnt) = |T_c|.
+#   has_node / has_interaction / number_of_nodes are used by their verified contracts (opaque HN(u,t); closed presence formula; N(t)).
+
+from pyvc.sym import b2i          # noqa: E402
+from .neighbours import HasNode, NumberOfNodes, has_node_symbol          # noqa: E402
+from .queries import presence_formula          # noqa: E402
+
+SETI = z3.ArraySort(Int, Bool)
+
+
+def _nn_symbol(ctx, g):
+    key = ('NN', g.name, g['SKey'].get_id())
+    cache = ctx.__dict__.setdefault('_nn', {})
+    if key not in cache:
+        cache[key] = (fresh_fun('NodesAt', Int, Int), fresh('NodesAll', Int))
+        ctx.notes.append('number_of_nodes(t) by its verified contract (C02): an opaque non-negative number N(t) of the graph state on the caller side')
+    return cache[key]
+
+
+def _number_of_nodes_apply(self, interp, g, argv, kwv):
+    args = dict(zip(['t'], argv))
+    args.update(kwv)
+    t = args.get('t', VNone)
+    NV, NA = _nn_symbol(interp.ctx, g)
+    if t.kind == 'none':
+        interp.ctx.assume(NA >= 0, 'call')
+        return VInt(NA)
+    if t.kind != 'int':
+        raise Undecided('number_of_nodes called with t of kind %s' % t.kind)
+    interp.ctx.assume(NV(t.z) >= 0, 'call')
+    return VInt(NV(t.z))
+
+
+NumberOfNodes.apply = _number_of_nodes_apply
+
+
+class _SnapCount(Contract):
+    props = ('C17',)
+    fname = None
+    counters = ()
+
+    def __init__(self, bound_n=None):
+        self.key = 'dyngraph::DynGraph.%s' % self.fname
+
+    def uses(self, eng):
+        return [HasNode('DynGraph'), HasInteraction('DynGraph'), NumberOfNodes('DynGraph')]
+
+    def reads(self):
+        return [HasNode('DynGraph').key, HasInteraction('DynGraph').key, NumberOfNodes('DynGraph').key]
+
+    def setup(self, ctx, variant):
+        g = HGraph('self', False, 'DynGraph').havoc('0')
+        g['ER'] = z3.BoolVal(True)
+        ctx.graphs['self'] = g
+        u, v = fresh('u', Node), fresh('v', Node)
+        view0 = spec.View('pre')
+        ctx.inv_cats = ('shape', 'canon', 'snapkeys')
+        spec.inv_assume(ctx, g, view0, [u, v], [(u, v)], shape_pairs=[(v, u)])
+        q0 = fresh('q0', Int)
+        ctx.assume(g['SKey'][q0])            # requires: the graph has at least one snapshot (C17's quantifier)
+        cnt = {k: fresh_fun('Count_' + k, SETI, Int) for k in self.counters}
+        for f in cnt.values():
+            ctx.assume(f(z3.K(Int, z3.BoolVal(False))) == 0)
+        c = Call(g=g, pre=g.snapshot(), u=u, v=v, cnt=cnt, q=fresh('q', Int), HN=has_node_symbol(ctx, g), argv=self.args(g, u, v), kwv={})
+        ctx.sc = c
+        return c
+
+    def body(self, interp, call):
+        interp.pure_calls = True             # callee contracts in closed form: the conditions are compared syntactically with the contract's
+        return Contract.body(self, interp, call)
+
+    def cond(self, c, k, x):
+        raise NotImplementedError
+
+    def counter_value(self, L, i):
+        return L.env[L.augmented[i]].z
+
+    def loop_specs(self):
+        def inv(L):
+            c = L.ctx.sc
+            return [('%s_counts_the_visited_ids' % k, self.counter_value(L, i) == c.cnt[k](L.Vis)) for i, k in enumerate(self.counters)]
+
+        def step_facts(L):
+            c = L.ctx.sc
+            if not L.cur:
+                return []
+            x = L.cur[0]
+            return [c.cnt[k](z3.Store(L.Vis, x, True)) == c.cnt[k](L.Vis) + self.weight(c, k, x) for k in self.counters]
+
+        def on_exit(L):
+            return [L.Vis == L.ctx.sc.pre['SKey']]          # extensionality: Vis is a subset of the ids and every id was visited
+        return {'bag/1': LoopSpec(inv, modifies={}, assumes=step_facts, on_exit=on_exit, tags=('C17',))}
+
+    def weight(self, c, k, x):
+        return b2i(self.cond(c, k, x))
+
+    def common(self, ctx, c, outcome, name):
+        if outcome[0] == 'raise':
+            self.forbid(ctx, 'C17.%s.no_exception.%s' % (name, outcome[1]), tags=('C17',), note=outcome[2])
+            return None
+        for comp, f in spec.state_unchanged(c.g, c.pre).items():
+            ctx.oblige('C17.%s.modifies_nothing.%s' % (name, comp), f, tags=('C17',))
+        return outcome[1]
+
+
+class NodeContribution(_SnapCount):
+    """node_contribution(u) = |{t in T : has_node(u, t)}| / |T|"""
+    fname = 'node_contribution'
+    counters = ('Tu',)
+
+    def args(self, g, u, v):
+        return [VGraph(g), VNode(u)]
+
+    def cond(self, c, k, x):
+        return c.HN(c.u, x)
+
+    def finish(self, ctx, c, outcome):
+        r = self.common(ctx, c, outcome, 'node_contribution')
+        if r is None:
+            return
+        card = getattr(ctx, 'card_snap', None)
+        if r.kind != 'real' or card is None:
+            return self.forbid(ctx, 'C17.node_contribution.divides_by_the_number_of_snapshots', tags=('C17',), note='result kind %s' % r.kind)
+        ctx.oblige('C17.node_contribution.value', r.z * z3.ToReal(card) == z3.ToReal(c.cnt['Tu'](c.pre['SKey'])), tags=('C17',))
+
+
+class PairDensity(_SnapCount):
+    """pair_density(u, v) = |{t : has_interaction(u, v, t)}| / |{t : has_node(u, t) and has_node(v, t)}|, 0 when the denominator is 0"""
+    fname = 'pair_density'
+    counters = ('TuTv', 'Tuv')          # in the order of the augmented assignments in the body: denominator, numerator
+
+    def args(self, g, u, v):
+        return [VGraph(g), VNode(u), VNode(v)]
+
+    def cond(self, c, k, x):
+        if k == 'TuTv':
+            return z3.And(c.HN(c.u, x), c.HN(c.v, x))
+        return z3.And(spec.ever(c.pre, c.u, c.v), presence_formula(c.pre, c.u, c.v, x, True))
+
+    def finish(self, ctx, c, outcome):
+        r = self.common(ctx, c, outcome, 'pair_density')
+        if r is None:
+            return
+        den, num = c.cnt['TuTv'](c.pre['SKey']), c.cnt['Tuv'](c.pre['SKey'])
+        if r.kind == 'int':
+            ctx.oblige('C17.pair_density.zero_only_without_common_presence', z3.And(r.z == 0, den == 0), tags=('C17',))
+        elif r.kind == 'real':
+            ctx.oblige('C17.pair_density.value', z3.And(den != 0, r.z * z3.ToReal(den) == z3.ToReal(num)), tags=('C17',))
+        else:
+            self.forbid(ctx, 'C17.pair_density.returns_a_number', tags=('C17',), note='result kind %s' % r.kind)
+
+
+class Coverage(_SnapCount):
+    """coverage() = sum_{t in T} number_of_nodes(t) / (|T| * number_of_nodes());  requires a non-zero denominator"""
+    fname = 'coverage'
+    counters = ('sumVt',)
+
+    def args(self, g, u, v):
+        return [VGraph(g)]
+
+    def setup(self, ctx, variant):
+        c = _SnapCount.setup(self, ctx, variant)
+        NV, NA = _nn_symbol(ctx, c.g)
+        ctx.assume(NA >= 1)                 # requires: non-zero denominator (C17's quantifier)
+        c.NV, c.NA = NV, NA
+        return c
+
+    def weight(self, c, k, x):
+        return c.NV(x)
+
+    def finish(self, ctx, c, outcome):
+        r = self.common(ctx, c, outcome, 'coverage')
+        if r is None:
+            return
+        card = getattr(ctx, 'card_snap', None)
+        if r.kind != 'real' or card is None:
+            return self.forbid(ctx, 'C17.coverage.divides_by_snapshots_times_nodes', tags=('C17',), note='result kind %s' % r.kind)
+        ctx.oblige('C17.coverage.value', r.z * z3.ToReal(card * c.NA) == z3.ToReal(c.cnt['sumVt'](c.pre['SKey'])), tags=('C17',))
+
+
+class NodePresence(_SnapCount):
+    """node_presence(u) = {t in T : has_node(u, t)}"""
+    fname = 'node_presence'
+    counters = ()
+
+    def args(self, g, u, v):
+        return [VGraph(g), VNode(u)]
+
+    def loop_specs(self):
+        def cnt_of(L):
+            vs = [v for v in L.env.values() if getattr(v, 'kind', None) == 'intbag']
+            if vs:
+                return vs[0].cnt
+            return z3.K(Int, IntV(0))           # before the loop: the empty list
+
+        def inv(L):
+            c = L.ctx.sc
+            q = z3.Int('q?np')
+            cnt = cnt_of(L)
+            return [('collected_ids_are_the_visited_ids_with_the_node', FA([q], cnt[q] == b2i(z3.And(L.vis(q), c.HN(c.u, q))), [cnt[q]]))]
+        return {'bag/1': LoopSpec(inv, modifies={}, tags=('C17',))}
+
+    def finish(self, ctx, c, outcome):
+        r = self.common(ctx, c, outcome, 'node_presence')
+        if r is None:
+            return
+        if r.kind != 'vset':
+            return self.forbid(ctx, 'C17.node_presence.returns_a_set_of_ids', tags=('C17',), note='result kind %s' % r.kind)
+        ctx.oblige('C17.node_presence.members', r.member_z(c.q) == z3.And(c.pre['SKey'][c.q], c.HN(c.u, c.q)), tags=('C17',))
+
+
+# ---- bounded search on the real code (triage) ---------------------------------------------------------------------------------
+
+def run_case(fname, history, u, v):
+    """the real measure on the graph built by `history` (DynGraph, removal mode) against its definition computed from the union of the
+    added spans; {clause: detail} of the violated clauses"""
+    from fractions import Fraction
+    from bounded.core import run_history
+    history = [tuple(tuple(y) if isinstance(y, list) else y for y in c) for c in history]
+    G, M, outs = run_history('DynGraph', True, history, probing=False)
+    nodes = list(G.nodes())
+    T = sorted(G.temporal_snapshots_ids())
+    Tn = lambda a: set(t for t in T if any(M.present(a, b, t) for b in nodes))
+    Tuv = set(t for t in T if M.present(u, v, t))
+    name = fname
+    try:
+        if fname == 'node_contribution':
+            got, exp = G.node_contribution(u), Fraction(len(Tn(u)), len(T))
+        elif fname == 'pair_density':
+            den = len(Tn(u) & Tn(v))
+            got, exp = G.pair_density(u, v), (Fraction(len(Tuv), den) if den else 0)
+        elif fname == 'coverage':
+            got, exp = G.coverage(), Fraction(sum(len([a for a in nodes if t in Tn(a)]) for t in T), len(T) * len(nodes))
+        else:
+            got, exp = G.node_presence(u), Tn(u)
+            if got != exp:
+                return {'C17.node_presence.members': 'node_presence(%r) = %r, expected %r' % (u, sorted(got), sorted(exp))}
+            return {}
+    except Exception as ex:
+        return {'C17.%s.no_exception.%s' % (name, type(ex).__name__): repr(ex)}
+    if abs(float(got) - float(exp)) > 1e-9:
+        return {'C17.%s.value' % name: '%s = %r, definition gives %s' % (fname, got, exp)}
+    return {}
+
+
+def _search_real(self, engine):
+    import itertools
+    from bounded.core import histories, run_history, jsonable
+    for cls, rem, h in itertools.islice(histories('quick', 1, classes=('DynGraph',), modes=(True,)), 800):
+        if any(c[0] == 'add' and c[1] == c[2] for c in h):
+            continue                        # C17 is stated for graphs without self-loops
+        G, M, outs = run_history(cls, rem, h, probing=False)
+        if any(o[0] != o[1] for o in outs) or not M.keys():
+            continue
+        ns = list(G.nodes())
+        for u in ns:
+            for v in (ns if self.fname == 'pair_density' else ns[:1]):
+                if self.fname == 'pair_density' and u == v:
+                    continue
+                viol = run_case(self.fname, h, u, v)
+                if viol:
+                    return {'violated': viol, 'call': 'DynGraph.%s on %r (u=%r, v=%r)' % (self.fname, h, u, v),
+                            'replayer': {'module': 'contracts.stats', 'function': 'run_case', 'args': [self.fname, jsonable(h), u, v]}}
+    return None
+
+
+_SnapCount.search_real = _search_real
